@@ -211,7 +211,7 @@ pub fn gen_file(rng: &mut Rng, l: &L, opts: &Opts, patterns: &mut Vec<String>) -
     gen_file_c(rng, l, opts, patterns, None)
 }
 
-/// `corrupt`: delete (even) or duplicate (odd) the tag selected by the number
+/// `corrupt`: delete (0 mod 3), duplicate (1 mod 3) or defuse (2 mod 3) the tag selected by the number
 pub fn gen_file_c(rng: &mut Rng, l: &L, opts: &Opts, patterns: &mut Vec<String>, corrupt: Option<usize>) -> FileOut {
     let pairs = if corrupt.is_some() { 1 + rng.below(4) } else { rng.below(5) };
     let word = dyck(rng, pairs, 3);
@@ -249,8 +249,19 @@ pub fn gen_file_c(rng: &mut Rng, l: &L, opts: &Opts, patterns: &mut Vec<String>,
         }
     }
     if let Some(sel) = corrupt {
-        let k = (sel / 2) % specs.len();
-        if sel % 2 == 0 { specs.remove(k); } else { let d = specs[k].clone(); specs.insert(k, d); }
+        let k = (sel / 3) % specs.len();
+        match sel % 3 {
+            0 => { specs.remove(k); }
+            1 => { let d = specs[k].clone(); specs.insert(k, d); }
+            // "commented out" / defused: the tag is left in place but no longer spells a tag
+            // (only when nothing else in the tag's text could be read as a tag: attribute values may hold `<block>`)
+            _ if specs[k].text.matches('<').count() != 1 || specs[k].text.matches("block").count() != 1 => { specs.remove(k); }
+            _ => {
+                let t = specs[k].text.clone();
+                specs[k].text = if t.contains("<block") { t.replacen("<block", ["<blockx", "<-block", "< block", "&lt;block"][rng.below(4)], 1) }
+                    else { t.replacen("block", ["blockx", "blocks", "bloc"][rng.below(3)], 1) };
+            }
+        }
     }
     // distribute tags over comments: each comment takes 1 (mostly) or 2-3 consecutive tags
     let nl = if opts.crlf { "\r\n" } else { "\n" };
@@ -393,7 +404,7 @@ pub fn generate_unbalanced(_ctx: &mut Ctx, seed: u64, i: usize) -> Case {
         let path = if ["Makefile", "makefile", "go.mod", "go.sum", "go.work"].contains(&ext) { format!("d{k}/{ext}") } else { format!("src/f{k}.{ext}") };
         let f = if k == bad {
             let sel = rng.below(1000);
-            op = if sel % 2 == 0 { "delete" } else { "duplicate" };
+            op = ["delete", "duplicate", "defuse"][sel % 3];
             bad_path = path.clone();
             gen_file_c(&mut rng, l, &opts, &mut patterns, Some(sel))
         } else {
